@@ -303,6 +303,9 @@ func TestReplay(t *testing.T) {
 			for p, ev := range r.Hist {
 				t.Logf("%4d %s", p, ev)
 			}
+			for _, l := range r.Rep.Trace {
+				t.Logf("T %s", l)
+			}
 			t.Logf("report: steps=%d deadlock=%v blocked=%v crashes=%d steplimit=%v", r.Rep.Steps, r.Rep.Deadlock, r.Rep.Blocked, len(r.Rep.Crashes), r.Rep.StepLimit)
 			for _, cr := range r.Rep.Crashes {
 				t.Logf("crash in %s: %s\n%s", cr.G, cr.Value, cr.Stack)
